@@ -1,6 +1,6 @@
 /* harnesses for C11 (repetitions) */
 uint64_t IN_type, IN_cols, IN_rows, IN_n, IN_gk;
-double IN_a, IN_b, IN_c, IN_d, IN_cv, IN_cs[3];
+double IN_a, IN_b, IN_c, IN_d, IN_cv, IN_cs[3], IN_os[4];
 static Repetition c11_rep;
 static Array_Vec2 c11_result;
 static void c11_state(void) {
@@ -55,7 +55,22 @@ static void c11_state(void) {
 #endif
 #endif
     } else if (IN_type == 3) {
+#ifdef VF_SMALL_OFFSETS
+        /* Explicit kind with 0..2 listed offsets, every component arbitrary (bounded groups) */
+        VF_ASSUME(IN_n <= 2);
+        c11_rep.offsets.count = IN_n; c11_rep.offsets.capacity = 2;
+        c11_rep.offsets.items = (Vec2 *)malloc(sizeof(Vec2) * 2);
+        VF_ASSUME(c11_rep.offsets.items != NULL);
+#ifdef VF_CBMC
+        IN_os[0] = nondet_double(); IN_os[1] = nondet_double(); IN_os[2] = nondet_double(); IN_os[3] = nondet_double();
+#else
+        { char key[32]; for (int k = 0; k < 4; k++) { snprintf(key, sizeof key, "IN_os[%d]", k); IN_os[k] = vf_bits_double(vf_input(key, 0)); } }
+#endif
+        c11_rep.offsets.items[0].x = IN_os[0]; c11_rep.offsets.items[0].y = IN_os[1];
+        c11_rep.offsets.items[1].x = IN_os[2]; c11_rep.offsets.items[1].y = IN_os[3];
+#else
         c11_rep.offsets.count = 0; c11_rep.offsets.capacity = 0; c11_rep.offsets.items = NULL;
+#endif
     }
 }
 #ifdef VF_ENTRY_h_rep_count
